@@ -6,8 +6,8 @@ from props import _fetch
 
 LEVEL = "proof"
 MODULE = "Phil.Props.C07"
-LEVEL_TEXT = 'Lean theorems about the merge model: re-fetching a fetch result gives the result, and the master as an extra source changes nothing — closed on flat masters (refetch_idempotent), nested masters (tree_refetch_idempotent), with .multiple definitions (tree_multi_refetch_idempotent) and with .multiple scopes nested to any depth (ms_refetch_idempotent, fetchRoot_ms_idempotent, master_as_source, ms_fetch_master_itself), also with further master occurrences (ms2_refetch_idempotent, ms2_fetch_master_itself), with no canonical-rendering hypothesis; what printing a fetch result and re-parsing gives (fetch_result_reparsed). Tied to /repo by a correspondence run on fetch chains; the oracle evaluates every equality of the statement on the implementation (re-fetch as object, re-fetch from printed text also with annotations, master as extra source, no source vs master as source; 1-3 cycles; values with lexical escapes).'
-LEVEL_NOTE = 'Closed form for masters with one occurrence per name, variable-free; masters with $variables in defaults and single-alternative unstarred choices are known edges (see DESIGN §7).'
+LEVEL_TEXT = 'Lean theorems about the merge model: re-fetching a fetch result gives the result, and the master as an extra source changes nothing — closed on flat masters (refetch_idempotent), nested masters (tree_refetch_idempotent), with .multiple definitions (tree_multi_refetch_idempotent) and with .multiple scopes nested to any depth (ms_refetch_idempotent, fetchRoot_ms_idempotent, master_as_source, ms_fetch_master_itself), also with further master occurrences (ms2_refetch_idempotent, ms2_fetch_master_itself), with no canonical-rendering hypothesis; what printing a fetch result and re-parsing gives (fetch_result_reparsed); on masters with choices under the decidable ChoiceRefetchOK (tree_choice_refetch_idempotent, tree_choice_fetch_master_itself), each clause sharp. Tied to /repo by a correspondence run on fetch chains; the oracle evaluates every equality of the statement on the implementation (re-fetch as object, re-fetch from printed text also with annotations, master as extra source, no source vs master as source; 1-3 cycles; values with lexical escapes).'
+LEVEL_NOTE = 'Closed forms for variable-free sources; masters with $variables in defaults are by design outside (variables resolve in sources). Findings: D81 (a deprecated choice set by a source is dropped by a re-fetch); a single unstarred alternative is starred by a re-fetch by design (the star is optional for one value).'
 TECHNIQUE = 'Lean 4 idempotence theorems (closed form incl. .multiple scopes) + differential correspondence + equality oracle on fetch chains'
 RULE = ("masters (incl. multiples nested in multiple scopes, non-canonical defaults such as 'yes' for a bool or unquoted strings) x "
         "source lists x 1-3 fetch/print/parse cycles; non-trivial = the result differs from the bare master fetch")
